@@ -283,6 +283,14 @@ pub fn scientific(sci: &(Base,Exponent)) -> Value {
   let b = part.chars.iter().collect::<String>();
   let c = exp_whole.chars.iter().collect::<String>();
   let d = exp_part.chars.iter().collect::<String>();
+  // Integer exponent: give the whole spelling to the correctly rounding decimal parser.
+  // (mantissa * 10f64.powf(exponent) rounds twice: `4.35e2` evaluated to 434.99999999999994.)
+  if d.is_empty() {
+    let mantissa = if b.is_empty() { a.clone() } else { format!("{}.{}",a,b) };
+    if let Ok(num) = format!("{}e{}{}", mantissa, if *sign {"-"} else {""}, c).parse::<f64>() {
+      return Value::F64(Ref::new(num));
+    }
+  }
   let num_f64: f64 = format!("{}.{}",a,b).parse::<f64>().unwrap();
   let mut exp_f64: f64 = format!("{}.{}",c,d).parse::<f64>().unwrap();
   if *sign {
